@@ -276,9 +276,54 @@ P["C20"] = dict(
     design_ref="DESIGN.md section 3, C20",
 )
 
+P["C14"] = dict(
+    claimed=True,
+    technique="static analysis: wiring rules between sibling implementations (contexts, adapt/axisswap/unitconvert, "
+              "operators vs their parameter declarations) and exact series identities between tables of different origin",
+    decides=["R-CONTEXT-AGREE: Minimal and Plain provide the same globals, forward (direction, operands) unchanged to "
+             "Op::apply of the stored operator, and hand the definition to Op::new unchanged (Plain: through parse_proj only)",
+             "R-KEY-DECLARED: every parameter key an operator reads at apply time is declared by its gamut or stored by "
+             "its constructor (a mis-keyed option would make the operator disagree with the ellipsoid method it wraps)",
+             "R-GATHER-SCATTER / R-UNITCONVERT-WIRING: adapt, axisswap and unitconvert move and scale elements as "
+             "their shared mappings require", "T-SERIES-CROSS: the Krueger series equals rectifying o conformal^-1 "
+             "(tables from different papers agree exactly to n^6)"],
+    not_decided=["every numerical agreement listed in the statement (tmerc vs btmerc, cart vs geocart inverse, "
+                 "series vs closed forms and quadrature)"],
+    level="Decides wiring agreement between independent routes; numerical agreement is not decided.",
+    design_ref="DESIGN.md section 3, C14",
+)
+P["C16"] = dict(
+    claimed=True,
+    technique="static analysis: declaration/use agreement of parameter keys between gamuts, constructors and readers",
+    decides=["R-KEY-DECLARED: every key read by an operator (flags included) is declared in its gamut, stored by its "
+             "constructor, or implicit; so a declared flag is what the operator consults ('flags are true when present')"],
+    not_decided=["idempotence of normalize and equivalence of differently formatted texts (string rewriting on all "
+                 "inputs)", "parsing of each value type", "defaults, required parameters, last-wins, unknown keys ignored"],
+    level="Decides only the declaration/use agreement clause of 'parameters are typed as declared'; the tokenizer's "
+          "layout-insignificance clauses are not decidable by static analysis and are not claimed.",
+    design_ref="DESIGN.md section 3, C16",
+)
+P["C18"] = dict(
+    claimed=True,
+    technique="static analysis: ownership/typing argument made explicit: deep field-type walk (no interior "
+              "mutability), who-may-write rule for the context tables, resolution-order dominance in Op::op, fresh "
+              "handles, grid-cache access set, and compile-fail witnesses with compiling twins",
+    decides=["T-FREEZE: Op, OpDescriptor, ParsedParameters, BaseGrid, Ntv2Grid, Minimal, Plain contain no interior mutability",
+             "R-WHO-WRITES: the operator/resource/constructor tables are written only by insert in op / "
+             "register_resource / register_op; no Context method hands out a mutable or owned Op",
+             "W-BORROW: an InnerOp cannot mutate its Op; registration needs &mut while apply needs &; tables are private; "
+             "Op is not Clone; handles cannot be forged; both contexts are Send + Sync (14 witnesses incl. twins)",
+             "R-FRESH-ID: every Op gets a fresh random handle", "R-RESOLUTION-ORDER: pipeline, then user operator "
+             "(no colon) or macro (colon), then built-in; a found user definition is final",
+             "R-GRID-CACHE: the process-wide grid cache is touched only by get_grid/clear_grids; grids leave it as Arc "
+             "clones; no Arc mutation, no unsafe", "R-CONTEXT-AGREE"],
+    not_decided=["file based macro lookup semantics (get_resource string handling, fenced blocks)"],
+    level="Decides immutability after instantiation, precedence of registrations and resolution order as structural / "
+          "type-level facts valid for all histories and schedules; register file parsing is not decided.",
+    design_ref="DESIGN.md section 3, C18",
+)
+
 NA = {
-    "C16": "layout insignificance / typed parsing are statements about a string rewriter on all texts; no necessary "
-           "structural condition in reach beyond what the compiler's types already enforce (see DESIGN.md section 4)",
     "C17": "semantics of the PROJ string translator on all PROJ texts; any static rule would be a frozen fragment of "
            "parse_proj (see DESIGN.md section 4)",
 }
